@@ -46,6 +46,7 @@ def extra(led, tier, seed):
     led.extend(sparse_sel.selection_frame())
     led.extend(sparse_sel.native_selection_histories(seed))
     led.extend(sparse_sel.update_weights_flow())
+    led.extend(sparse_sel.training_steps_flow())
     led.extend(sparse_sel.fit_groups_flow())
     led.extend(sparse_sel.check_groups_exhaustive(4 if tier == "thorough" else 3))
     led.assume("A1", "A2", "A3", "A4", "A8",
